@@ -272,6 +272,11 @@ def window(x, p):
         args = {'keep_all_names': True}
     toks = [t1] + gtoks + [t2]
     w = lua.LuaMinifyTokenWriter(tokens=toks, root=None, args=args)
+    if x.symbolic:
+        # same factory, but a map that compares symbolic keys by equality
+        # (a real dict would have to hash them)
+        from symx import rt as _rt
+        w._name_factory._name_map = _rt.SDict()
     w._last_was_name_keyword_number = p.get('last_word', False)
     w._last_was_newline = p.get('last_nl', False)
     try:
@@ -335,7 +340,11 @@ def pairs(cfgs, L):
 
 
 HARNESSES = [
-    Harness('window', window, quick=pairs(['keep_all'], 2),
+    Harness('window', window, quick=pairs(['keep_all'], 2) + [
+        dict(Q, cfg='keep_all', c1='number', c2='symbol', L=4),
+        dict(Q, cfg='keep_all', c1='symbol', c2='number', L=4),
+        dict(Q, cfg='default', c1='name', c2='name', L=2),
+        dict(Q, cfg='default', c1='number', c2='name', L=2)],
             thorough=pairs(['keep_all', 'default'], 3) +
             [dict(Q, cfg='default', c1=c1, c2=c2, L=2, last_word=True,
                   last_nl=True) for c1 in ('name', 'number', 'symbol')
